@@ -173,7 +173,10 @@ Definition step_pb (p : pool) (before after : cdump) (tok_hist tok_fresh : bool)
                   match find_mut before t with Some (_, (_, sq, _, _, _)) => negb (sq =? cas)%Z | None => false end
               | CMut t _ _ seq _ _ _, 302 =>
                   match find_mut before t with Some (_, (_, sq, _, _, _)) => (seq <? sq)%Z | None => false end
-              | CMut _ _ _ _ _ _ _, 206 => true
+              (* 206 answers an item that is not authentic: a valid put is not refused with it (C04: a valid put with a
+                 higher seq is accepted) *)
+              | CMut t _ k _ _ salt _, 206 =>
+                  negb (q_vok s && bytes_eqb (pget p t) (target_from_key (pget p k) (option_map (pget p) salt)))
               | _, _ => false
               end)
           (* a bad token must be answered 203 whatever else is wrong *)
@@ -331,12 +334,24 @@ Definition issued_and_live (issued : list (N * bytes * nat * Z)) (gen : nat) (ip
 Definition issued_recently (issued : list (N * bytes * nat * Z)) (now : Z) (ip : N) (token : bytes) : bool :=
   existsb (fun e => let '(i, t, _, at_) := e in (i =? ip) && bytes_eqb t token && (now - at_ <? 300000)%Z) issued.
 Definition put_token (s : sstep) : option bytes := match q_req s with CPut token _ => Some token | _ => None end.
+(* what the holder of a token issued to [ip] computes for [ip'] without the secret (TokenForge.tok_derive; CRC-32C is
+   affine): xor in the difference of the two checksums under the all-zero secret *)
+Definition forge_tok (ip ip' : N) (tok : bytes) : bytes :=
+  N_to_be 4 (N.lxor (be_to_N tok)
+                    (N.lxor (crc32c (N_to_be 4 ip ++ repeat 0 20)) (crc32c (N_to_be 4 ip' ++ repeat 0 20)))).
+(* the token is what that computation gives from a token this node issued to another address under a live secret *)
+Definition derived_from_issued (issued : list (N * bytes * nat * Z)) (gen : nat) (ip : N) (token : bytes) : bool :=
+  existsb (fun e => let '(i, t, g, _) := e in
+                    negb (i =? ip) && (length t =? 4)%nat && (gen <=? S g)%nat && bytes_eqb (forge_tok i ip t) token) issued.
 (* an acknowledged write whose token was never issued to that IP by this node (within the history):
-   None = not the case; Some true = the token nevertheless validates under the node's secrets - it was
-   derived, not issued (known class F26); Some false = it does not even validate *)
-Definition unissued_ack (issued : list (N * bytes * nat * Z)) (after : cdump) (s : sstep) : option bool :=
+   None = not the case; Some true = the token was derived from a token this node issued to another address under a
+   secret that is still live (known class F26, exactly that derivation); Some false = anything else - a token that
+   nobody was ever handed and that no issued token leads to was accepted *)
+Definition unissued_ack (issued : list (N * bytes * nat * Z)) (gen : nat) (after : cdump) (s : sstep) : option bool :=
   match q_req s, q_reply s with
-  | CPut token _, YPing _ => if was_issued issued (q_ip s) token then None else Some (dump_token_ok after (q_ip s) token)
+  | CPut token _, YPing _ =>
+      if was_issued issued (q_ip s) token then None
+      else Some (dump_token_ok after (q_ip s) token && derived_from_issued issued gen (q_ip s) token)
   | _, _ => None
   end.
 
@@ -359,7 +374,7 @@ Fixpoint run03_steps_i (p : pool) (u : univ) (rt srt : rtable) (caps : nat * nat
           let pb := step_pb p before after tok_hist tok_fresh s && rok && caps_pb caps after in
           let issued' := match reply_token (q_reply s) with Some tok => (q_ip s, tok, gen', q_now s) :: issued | None => issued end in
           (if corr then [] else [1]) ++ (if pb then [] else [2])
-          ++ (match unissued_ack issued after s with None => [] | Some true => [126] | Some false => [2] end)
+          ++ (match unissued_ack issued gen' after s with None => [] | Some true => [126] | Some false => [2] end)
           ++ run03_steps_i p u rt srt caps sv' tape' after last_rot' gen' issued' r
       | None => [1]
       end
